@@ -44,6 +44,12 @@ func (a *Aggregate) add(r *Result, c *Case) {
 	}
 	a.DistinctN += r.DistinctN
 	for k, v := range r.Obs {
+		if strings.HasPrefix(k, "max_") {
+			if v > a.Obs[k] {
+				a.Obs[k] = v
+			}
+			continue
+		}
 		a.Obs[k] += v
 	}
 	for _, s := range r.Samples {
@@ -327,7 +333,7 @@ func Run(o RunOpts) (*Aggregate, error) {
 							CaseID: c.ID, Case: &c,
 							Input: map[string]any{"sub": w.lastSub, "note": note},
 						})
-						if w.lastSub >= 0 && deathCount[c.ID] < 50 {
+						if w.lastSub >= 0 && deathCount[c.ID] < 4 {
 							// resume the batch after the offender so one fatal error does not hide the next
 							c.Resume = w.lastSub + 1
 							requeue = append(requeue, c)
